@@ -149,3 +149,62 @@ def layer_with(eqx, layer, W, B):
     if layer.bias:
         l2 = eqx.tree_at(lambda l: l.bias, l2, B)
     return l2
+
+
+# ------------------------------------------------------------------ whole models with symbolic parameters
+def enable_network_mode():
+    """Abstractions used for network-level obligations (each is part of the claim, see DESIGN.md 2.5):
+    let-abstraction of large polynomials, order-independent max-pool selection (assumes the unique-maximiser
+    precondition proved sufficient in C08), abstract float constants (eps, activation constants, filter magnitudes)."""
+    from jxsmt import sym as S, interp as I
+    I.DEF_THRESHOLD = 4
+    I.CANON_ARGMAX = True
+    S.ABSTRACT_FLOATS = True
+
+
+def symbolic_model(model, S, prefix="p", symbolic_filters=False):
+    """-> (P, f, info): P = list of leaves (Sym for parameters, abstracted constants for the filter bank), f(P, xdict, in_sig) -> dict."""
+    import jax
+    import equinox as eqx
+    import ginjax.geometric as geom
+    params, static = eqx.partition(model, eqx.is_array)
+    flat = jax.tree_util.tree_flatten_with_path(params)[0]
+    leaves, treedef = jax.tree_util.tree_flatten(params)
+    paths = [jax.tree_util.keystr(p) for p, _ in flat]
+    P, kinds = [], []
+    for i, (l, pth) in enumerate(zip(leaves, paths)):
+        if "invariant_filters" in pth:
+            P.append(S.var_array(f"F{i}", l.shape) if symbolic_filters else S.abstract_constants(l))
+            kinds.append("filter")
+        else:
+            P.append(S.var_array(f"{prefix}{i}", l.shape))
+            kinds.append("param")
+
+    def f(ps, xb, order, D, is_torus):
+        mm = eqx.combine(jax.tree_util.tree_unflatten(treedef, list(ps)), static)
+        out = mm(geom.MultiImage({kp: xb[kp] for kp in order}, D, is_torus))
+        if isinstance(out, tuple):
+            out = out[0]
+        return out
+    return P, f, {"paths": paths, "kinds": kinds, "leaves": leaves, "treedef": treedef, "static": static}
+
+
+def concrete_params(cx, P, info, vals):
+    """Concrete leaves for a replay: parameters from the witness, the filter bank as it really is."""
+    import jax.numpy as jnp
+    out = []
+    for p, kind, leaf in zip(P, info["kinds"], info["leaves"]):
+        out.append(leaf if kind == "filter" else jnp.asarray(cx.conc(p, vals)))
+    return out
+
+
+def run_with_contract(I, stubs, tr, args, contract=None):
+    """Execute a Traced function with the eigh stub's contract (g, base log) active; returns (out, eigh log of this run)."""
+    n0 = len(stubs.EIGH_LOG)
+    stubs.EIGH_CONTRACT = contract
+    stubs.EIGH_CONTRACT_START[0] = n0
+    try:
+        out = tr(*args)
+    finally:
+        stubs.EIGH_CONTRACT = None
+    return out, stubs.EIGH_LOG[n0:]
